@@ -62,13 +62,13 @@ ConcatLaw ==
 (* no larger than the input allows); never "panic"/"hang", and never an     *)
 (* allocation out of proportion to the input.                               *)
 (***************************************************************************)
-CountClasses == {"zero", "one", "small", "exact", "exactplus1", "max31", "two31", "max32", "wrap32", "wrap64"}
+CountClasses == {"zero", "one", "small", "exact", "exactplus1", "max31", "two31", "max32", "wrap32", "wrap64", "sign64", "max64"}
 StepClasses == {"zero", "one", "minus1", "huge", "normal"}
 RangeClasses == {"lt", "eq", "gt", "span32"}
 AvailClasses == {"none", "partial", "exact", "extra"}
 
 \* a count that claims more elements than the bytes present can hold
-Overclaims(c) == c \in {"exactplus1", "max31", "two31", "max32", "wrap32", "wrap64"}
+Overclaims(c) == c \in {"exactplus1", "max31", "two31", "max32", "wrap32", "wrap64", "sign64", "max64"}
 
 HostileAllowed(decoder, count, step, range, avail) ==
   CASE decoder = "header" ->
@@ -78,7 +78,7 @@ HostileAllowed(decoder, count, step, range, avail) ==
          IF step \in {"zero", "minus1"} \/ range = "gt" THEN {"err"}
          ELSE {"err", "want", "ok"}
     [] decoder = "points" ->
-         IF count \in {"two31", "max32", "wrap32", "wrap64", "max31"} THEN {"err", "want"} ELSE {"err", "want", "ok"}
+         IF count \in {"two31", "max32", "wrap32", "wrap64", "max31", "sign64", "max64"} THEN {"err", "want"} ELSE {"err", "want", "ok"}
     [] OTHER -> {"err", "want", "ok"}
 
 HostileLaws ==
